@@ -129,6 +129,23 @@ pub fn determine_worker_count(config: &config::Encoder) -> Option<usize> {
     crate::par::verif_determine_worker_count(config)
 }
 
+/// `(partition_order, block_size, warmup_length, rice_params, quotients, remainders)`.
+pub fn residual_parts(r: &Residual) -> (usize, usize, usize, Vec<u8>, Vec<u32>, Vec<u32>) {
+    (
+        r.partition_order(),
+        r.block_size(),
+        r.warmup_length(),
+        r.rice_params().to_vec(),
+        r.quotients().to_vec(),
+        r.remainders().to_vec(),
+    )
+}
+
+/// `(coefs, shift, precision)`.
+pub fn qparams_parts(q: &QuantizedParameters) -> (Vec<i16>, i8, usize) {
+    (q.coefs(), q.shift(), q.precision())
+}
+
 // ------------------------------------------------------------- oracle log
 
 /// A float-derived intermediate value consumed by the integer decision logic.
